@@ -36,8 +36,8 @@ def main():
         else:
             retired = False
         checks = [p for p, r in (meta.get("checks_run_against_it") or {}).items() if r.get("detected")]
-        if not checks:
-            checks = [meta.get("property")]
+        if meta.get("property") and meta["property"] not in checks:
+            checks = [meta["property"]] + checks          # the owning check is always run
         rc, out = sh(["git", "apply", os.path.join(d, "patch.diff")], REPO)
         if rc:
             rc, out = sh(["git", "apply", "--3way", os.path.join(d, "patch.diff")], REPO)
